@@ -1,10 +1,120 @@
 (* C12 — RTSP sessions answer every request once and follow the legal method order.
-   Statements only; proofs are in Proofs/C12RtspProofs.v. *)
+   Statements only; proofs are in Proofs/C12RtspProofs.v and Proofs/C12RtspInv.v.
+   [step] is the model of Session.onRequest (repaired behaviour), [env] the environment
+   (live streams, SDP parser results) over which everything is quantified; sessions are
+   TCP or ws-rtsp ([init_sess ws path]); request sequences are unbounded lists. *)
 From Coq Require Import ZArith List Bool.
-From V Require Import Bytes StrGo C12RtspSession C12RtspProofs.
+From V Require Import Bytes StrGo C12RtspSession C12RtspProofs C12RtspInv.
 Import ListNotations.
+Open Scope Z_scope.
 
+(* exactly one response per request, CSeq echoed, session id present — in every state of an open session *)
+Theorem C12_one_response_per_request : forall e s q s' rs fs,
+  s_closed s = false -> step e s q = (s', rs, fs) ->
+  exists r, rs = [r] /\ rs_cseq r = q_cseq q /\ rs_sess r = true.
+Proof. exact one_response_per_request. Qed.
+Print Assumptions C12_one_response_per_request.
+
+(* ... which the code before the fix violated: PLAY while playing got no response (D25) *)
+Theorem C12_one_response_refuted : exists e s q,
+  s_closed s = false /\ snd (fst (step_orig e s q)) = [].
+Proof. exact one_response_refuted. Qed.
+Print Assumptions C12_one_response_refuted.
+
+(* a method that is not legal in the current state is refused with 455 and changes nothing *)
+Theorem C12_illegal_is_455_noop : forall e s q,
+  s_closed s = false -> legal (s_status s) (q_meth q) = false ->
+  step e s q = (s, [resp 455 q], []).
+Proof. exact illegal_is_455_noop. Qed.
+Print Assumptions C12_illegal_is_455_noop.
+
+(* playing is reached only through DESCRIBE, SETUP, PLAY (each answered 2xx, in this order),
+   recording only through ANNOUNCE, SETUP, RECORD — for every request sequence *)
+Theorem C12_playing_only_via_describe_setup_play : forall e watch ext ws wspath qs os ext' s',
+  forallb req_wf qs = true ->
+  run_gen true e watch ext (init_sess ws wspath) qs = (os, (ext', s')) ->
+  s_status s' = SPlaying -> subseq [MDescribe; MSetup; MPlay] (events qs os).
+Proof. exact playing_only_via_describe_setup_play. Qed.
+Print Assumptions C12_playing_only_via_describe_setup_play.
+
+Theorem C12_recording_only_via_announce_setup_record : forall e watch ext ws wspath qs os ext' s',
+  forallb req_wf qs = true ->
+  run_gen true e watch ext (init_sess ws wspath) qs = (os, (ext', s')) ->
+  s_status s' = SRecording -> subseq [MAnnounce; MSetup; MRecord] (events qs os).
+Proof. exact recording_only_via_announce_setup_record. Qed.
+Print Assumptions C12_recording_only_via_announce_setup_record.
+
+(* no media before a successful PLAY, no publication before a successful RECORD: the attach /
+   register effects occur only in the ready->playing / ready->recording transitions answered 200;
+   release and close only in TEARDOWN *)
+Theorem C12_no_media_before_play_no_publish_before_record : forall e s q s' rs fs f,
+  s_closed s = false -> step e s q = (s', rs, fs) -> In f fs ->
+  match f with
+  | EAttach p => q_meth q = MPlay /\ rs = [resp 200 q] /\ s_status s = SReady /\
+                 s_status s' = SPlaying /\ s_held s' = HCons p
+  | ERegister p => q_meth q = MRecord /\ rs = [resp 200 q] /\ s_status s = SReady /\
+                   s_status s' = SRecording /\ s_held s' = HPub p
+  | ERelease h => q_meth q = MTeardown /\ h = s_held s
+  | EClose => q_meth q = MTeardown
+  end.
+Proof. exact effects_only_on_success. Qed.
+Print Assumptions C12_no_media_before_play_no_publish_before_record.
+
+(* TEARDOWN and disconnect release whatever the session held *)
+Theorem C12_teardown_or_disconnect_releases : forall e s q,
+  s_closed s = false ->
+  (q_meth q = MTeardown ->
+     step e s q = (closed_of s, [resp 200 q], [ERelease (s_held s); EClose])) /\
+  disconnect s = (closed_of s, [ERelease (s_held s); EClose]) /\
+  (forall ext w, s_closed (closed_of s) = true /\ s_held (closed_of s) = HNone /\
+                 reg_no_self (registry ext (s_held (closed_of s)) w) = true).
+Proof. exact teardown_or_disconnect_releases. Qed.
+Print Assumptions C12_teardown_or_disconnect_releases.
+
+(* after any refused request the connection is usable: still open, same status, same holdings,
+   no effect, and the next request is answered exactly once *)
+Theorem C12_usable_after_refusal : forall e s q s' c fs,
+  s_closed s = false -> step e s q = (s', [resp c q], fs) -> is_2xx c = false ->
+  s_closed s' = false /\ s_status s' = s_status s /\ s_held s' = s_held s /\ fs = [] /\
+  forall q2, exists r, snd (fst (step e s' q2)) = [r] /\ rs_cseq r = q_cseq q2 /\ rs_sess r = true.
+Proof. exact usable_after_refusal. Qed.
+Print Assumptions C12_usable_after_refusal.
+
+(* ... which the code before the fix violated: a PLAY refused with 461 switched to playing (D25b) *)
+Theorem C12_refused_play_changed_state_refuted : exists e s q,
+  s_closed s = false /\ s_status s = SReady /\
+  snd (fst (step_orig e s q)) = [resp 461 q] /\ s_status (fst (fst (step_orig e s q))) = SPlaying.
+Proof. exact refused_play_changed_state_refuted. Qed.
+Print Assumptions C12_refused_play_changed_state_refuted.
+
+(* the sentinel OPTIONS the harness interleaves is state-free *)
 Theorem C12_options_is_noop : forall fx e s q,
   s_closed s = false -> q_meth q = MOptions -> step_gen fx e s q = (s, [resp 200 q], []).
 Proof. exact options_is_noop. Qed.
 Print Assumptions C12_options_is_noop.
+
+(* the decidable oracle (specification monitor) that is applied to the implementation accepts
+   the model on every well-formed request sequence (request URI non-empty), in every
+   environment, on TCP and ws-rtsp, followed by the disconnect *)
+Theorem C12_model_passes : forall e watch ext ws wspath qs,
+  forallb req_wf qs = true ->
+  c12_ok (registry ext HNone watch) qs (run_case true e watch ext (init_sess ws wspath) qs) = true.
+Proof. exact model_passes. Qed.
+Print Assumptions C12_model_passes.
+
+(* the behaviour before the fixes does not pass the oracle *)
+Theorem C12_orig_fails_oracle :
+  c12_ok [(1, 0)] ex_reqs (run_case false ex_env [C12Ex.p_a] [C12Ex.p_a] (init_sess false []) ex_reqs) = false.
+Proof. exact orig_fails_oracle. Qed.
+Print Assumptions C12_orig_fails_oracle.
+
+(* non-vacuity: a well-formed sequence that reaches playing, attaches a consumer, and releases it *)
+Example C12_nonvacuous :
+  forallb req_wf ex_reqs = true /\
+  map (fun o => map rs_code (o_resps o))
+      (fst (run_case true ex_env [C12Ex.p_a] [C12Ex.p_a] (init_sess false []) ex_reqs))
+    = [[200]; [200]; [200]; [200]; [200]] /\
+  map o_reg (fst (run_case true ex_env [C12Ex.p_a] [C12Ex.p_a] (init_sess false []) ex_reqs))
+    = [[(1, 0)]; [(1, 0)]; [(1, 1)]; [(1, 1)]; [(1, 0)]] /\
+  c12_ok [(1, 0)] ex_reqs (run_case true ex_env [C12Ex.p_a] [C12Ex.p_a] (init_sess false []) ex_reqs) = true.
+Proof. exact example_run. Qed.
